@@ -62,6 +62,8 @@ fn unhex(h: &str) -> Option<String> {
 
 thread_local! {
     static LAST_PANIC: RefCell<Option<String>> = const { RefCell::new(None) };
+    /// did a diagnostic of the current case say `Circular …` (the occurs check fired)?
+    static CIRCULAR: RefCell<bool> = const { RefCell::new(false) };
 }
 
 fn install_hook() {
@@ -211,6 +213,9 @@ fn check_diags(stage: &str, src: &str, errs: &[Box<dyn ReportableError>], bad: &
         match r {
             Err(p) => return Some(p),
             Ok((emsg, labels)) => {
+                if emsg.contains("Circular") {
+                    CIRCULAR.with(|c| *c.borrow_mut() = true);
+                }
                 for (loc, _msg) in labels {
                     let p = loc.path.to_string_lossy();
                     if !(p.is_empty() || p == FILE) {
@@ -253,6 +258,7 @@ fn run_case(env: &Env, src: &str, tr: bool) -> String {
     let mut bad: Vec<String> = vec![];
     let mut ndiag = 0usize;
     let mut ntok = 0usize;
+    CIRCULAR.with(|c| *c.borrow_mut() = false);
     // 1. tokenize
     trace(tr, "tok");
     let tok = match guard(|| parser::tokenize(src)) {
@@ -353,7 +359,7 @@ fn run_case(env: &Env, src: &str, tr: bool) -> String {
         "ok"
     };
     let spans = if bad.is_empty() { "ok".to_string() } else { format!("B{}", bad.join(";")) };
-    format!("{}\t{class}\t{}\t{tok}\t{parse}\t{ty}\t{bc}\t{wasm}\t{spans}\t{ndiag}\tntok={ntok}", hex(src), valid as u8)
+    format!("{}\t{class}\t{}\t{tok}\t{parse}\t{ty}\t{bc}\t{wasm}\t{spans}\t{ndiag}\tntok={ntok}{}", hex(src), valid as u8, if CIRCULAR.with(|c| *c.borrow()) { ";circ=1" } else { "" })
 }
 
 fn worker(tr: bool, stack_kib: usize) {
